@@ -606,7 +606,7 @@ func (vc *VC) specCall(x CCall, env *SpecEnv) Term {
 			return Term{fmt.Sprintf("(< %s %s)", a[0].S, a[1].S), SBool, nil}
 		}
 		if a[0].Sort == SStr && a[1].Sort == SStr {
-			vc.ss.declare(&sortInfo{Name: "str$lt", Kind: "const", Decl: "(declare-fun gs.lt (Str Str) Bool)"})
+			vc.ss.declare(&sortInfo{Name: "str$lt", Kind: "const", Decl: strLtDecl})
 			return Term{fmt.Sprintf("(gs.lt %s %s)", a[0].S, a[1].S), SBool, nil}
 		}
 		// other ordered element types: an uninterpreted strict order per sort
@@ -615,7 +615,7 @@ func (vc *VC) specCall(x CCall, env *SpecEnv) Term {
 		return Term{fmt.Sprintf("(%s %s %s)", fn, a[0].S, a[1].S), SBool, nil}
 	case "strLess":
 		a := args()
-		vc.ss.declare(&sortInfo{Name: "str$lt", Kind: "const", Decl: "(declare-fun gs.lt (Str Str) Bool)"})
+		vc.ss.declare(&sortInfo{Name: "str$lt", Kind: "const", Decl: strLtDecl})
 		return Term{fmt.Sprintf("(gs.lt %s %s)", a[0].S, a[1].S), SBool, nil}
 	case "sprintf":
 		if f, ok := x.Args[0].(CStr); ok {
